@@ -22,6 +22,8 @@ structure Drv where
   nextSerial : Nat := 1
   nextSel : Nat := 1000000
   sqlSt : SqlState := {}
+  /-- direct evaluation of the applied operation sequence: name -> (columns, rows, key-determined) -/
+  direct : List (String × (Cols × List Row × Bool)) := []
 deriving Inhabited
 
 namespace Drv
@@ -43,6 +45,25 @@ def showRel (d : Drv) (r : Rel) : String := r.show d.hasPay ++ " | " ++ r.showMe
 
 def setRel (d : Drv) (n : String) (r : Rel) : Drv :=
   { d with pool := (n, r) :: d.pool.filter (·.1 != n) }
+
+def direct? (d : Drv) (n : String) : Option (Cols × List Row × Bool) :=
+  (d.direct.find? (·.1 == n)).map (·.2)
+
+def setDirect (d : Drv) (n : String) (v : Option (Cols × List Row × Bool)) : Drv :=
+  match v with
+  | some x => { d with direct := (n, x) :: d.direct.filter (·.1 != n) }
+  | none => d
+
+/-- Direct evaluation of a unary operation on an operand's direct rows. -/
+def directU (d : Drv) (tn : String) (op : UOp) : Option (Cols × List Row × Bool) :=
+  match d.direct? tn with
+  | none => none
+  | some (cols, rows, kd) =>
+    let c' := op.appliedColumns cols
+    let kd' := kd && (match op with
+      | .dedup => rowsKeyDetermined cols rows
+      | _ => true)
+    some (c', op.sem c' rows, kd')
 
 end Drv
 
@@ -164,7 +185,18 @@ def step (d : Drv) (cmd : List Sexp) : Drv × String :=
           applyOp d.store defaultFuel (.u op) t o
       match res with
       | .error e => (d, errLine e)
-      | .ok r => d.report n (if r.isSame then "same" else "new") (.ok (r.get t))
+      | .ok r =>
+        let dv : Option (Cols × List Row × Bool) :=
+          match req with
+          | .slice a b _ =>
+            match UOp.mkSlice (a.getD 0) b with
+            | .ok op => d.directU tn op
+            | .error _ => none
+          | _ =>
+            match req.toUOp with
+            | .ok op => d.directU tn op
+            | .error _ => none
+        (d.setDirect n dv).report n (if r.isSame then "same" else "new") (.ok (r.get t))
     | _, _, _ => (d, "bad-ref")
   -- (join rN rL rR PRED bt tr)
   | [atom "join", atom n, atom ln, atom rn, px, atom bt, atom tr] =>
@@ -172,28 +204,40 @@ def step (d : Drv) (cmd : List Sexp) : Drv × String :=
     | some l, some r, some p, some bt, some tr =>
       match l.joinWith d.store r p bt tr with
       | .error e => (d, errLine e)
-      | .ok res => d.report n (if res.isSame then "same" else "new") (.ok (res.get l))
+      | .ok res =>
+        let dv : Option (Cols × List Row × Bool) :=
+          match d.direct? ln, d.direct? rn with
+          | some (lc, lr, lk), some (rc, rr, rk) =>
+            let common := Cols.keys (Cols.inter lc rc)
+            some (lc.union rc, joinRows common p lr rr, lk && rk)
+          | _, _ => none
+        (d.setDirect n dv).report n (if res.isSame then "same" else "new") (.ok (res.get l))
     | _, _, _, _, _ => (d, "bad-ref")
   | [atom "chain", atom n, atom ln, atom rn] =>
     match d.rel? ln, d.rel? rn with
     | some l, some r =>
       match l.chainWith d.store r with
       | .error e => (d, errLine e)
-      | .ok res => d.report n "new" (.ok (res.get l r))
+      | .ok res =>
+        let dv : Option (Cols × List Row × Bool) :=
+          match d.direct? ln, d.direct? rn with
+          | some (lc, lr, lk), some (_, rr, rk) => some (lc, lr ++ rr, lk && rk)
+          | _, _ => none
+        (d.setDirect n dv).report n "new" (.ok (res.get l r))
     | _, _ => (d, "bad-ref")
   | [atom "mat", atom n, atom tn, atom name] =>
     match d.rel? tn with
     | some t =>
       match t.materialized d.store name with
       | .error e => (d, errLine e)
-      | .ok res => d.report n (if res.isSame then "same" else "new") (.ok (res.get t))
+      | .ok res => (d.setDirect n (d.direct? tn)).report n (if res.isSame then "same" else "new") (.ok (res.get t))
     | none => (d, "bad-ref")
   | [atom "transfer", atom n, atom tn, atom en] =>
     match d.rel? tn, d.eng? en with
     | some t, some e =>
       match t.transferredTo d.store e with
       | .error er => (d, errLine er)
-      | .ok res => d.report n (if res.isSame then "same" else "new") (.ok (res.get t))
+      | .ok res => (d.setDirect n (d.direct? tn)).report n (if res.isSame then "same" else "new") (.ok (res.get t))
     | _, _ => (d, "bad-ref")
   -- (exec rN): execute in the relation's own engine, iterate twice
   | [atom "exec", atom n] =>
@@ -220,7 +264,13 @@ def step (d : Drv) (cmd : List Sexp) : Drv × String :=
   | [atom "sem", atom n] =>
     match d.rel? n with
     | none => (d, "bad-ref")
-    | some r => (d, s!"ok rows={showRows d.env.tags (sem d.sigma r)} kd={showBool (keyDetermined d.sigma r)}")
+    | some r =>
+      let tree := showRows d.env.tags (sem d.sigma r)
+      let kdt := keyDetermined d.sigma r
+      match d.direct? n with
+      | some (_, rows, kd) =>
+        (d, s!"ok rows={showRows d.env.tags rows} tree={tree} kd={showBool (kd && kdt)}")
+      | none => (d, s!"ok rows={tree} tree={tree} kd={showBool kdt}")
   -- (show rN)
   | [atom "show", atom n] =>
     match d.rel? n with
@@ -360,6 +410,7 @@ def step (d : Drv) (cmd : List Sexp) : Drv × String :=
       | .error e => (d, errLine e)
       | .ok (res, st', sq', hooks) =>
         let d := { d with st := st', sqlSt := sq' }
+        let d := d.setDirect n (d.direct? tn)
         let (d, line) := d.report n (if res.isSame then "same" else "new") (.ok (res.get t))
         -- input tree after processing (payload marks may have changed)
         (d, line ++ " || input=" ++ (t.show d.hasPay) ++ " || hooks=" ++ " ".intercalate hooks)
@@ -368,21 +419,33 @@ def step (d : Drv) (cmd : List Sexp) : Drv × String :=
     match d.rel? n with
     | none => (d, "bad-ref")
     | some r =>
-      match sqlRun d.sigma d.sqlSt d.store r with
-      | .error e => (d, errLine e)
-      | .ok (rows, ordered) => (d, s!"ok rows={showRows d.env.tags rows} ordered={showBool ordered}")
+      match sqlRun d.sqlSt d.store r with
+      | .inl msg => (d, msg)
+      | .inr (out, _) =>
+        (d, s!"ok rows={showRows d.env.tags out.rows} total={showBool out.total} det={showBool out.det}")
   | _ => (d, "bad-command")
 where
   go (d : Drv) (n : String) (e : Engine) (cols : Cols) (rws : List (List Int)) (mn : Nat)
       (mx : Option Nat) (name : String) : Drv × String :=
     let oid := d.nextSerial
     let leaf := Rel.leaf oid e cols name mn mx true 0
+    let rows := rws.map (mkRow cols)
     let d := { d with nextSerial := oid + 1,
-                      leaves := (oid, rws.map (mkRow cols)) :: d.leaves,
+                      leaves := (oid, rows) :: d.leaves,
                       leafNames := (oid, name) :: d.leafNames }
+    let d := d.setDirect n (some (cols, rows, true))
     match e.kind with
     | .iter => d.report n "new" (.ok leaf)
-    | .sql => d.report n "new" (applySkip leaf {})
+    | .sql =>
+      let idx := d.sqlSt.tables.length
+      let doomed := mx == some 0 && rws.isEmpty && name.startsWith "D"
+      let pay : SqlPayload :=
+        { frm := .table name oid idx,
+          wh := if doomed then [.lit false] else [],
+          avail := cols.map (fun t => (t, SqlExpr.col name t)) }
+      let d := { d with sqlSt := { d.sqlSt with tables := d.sqlSt.tables ++ [rows],
+                                                payloads := (oid, pay) :: d.sqlSt.payloads } }
+      d.report n "new" (applySkip leaf {})
 
 partial def loop (h : IO.FS.Stream) (out : IO.FS.Stream) (d : Drv) : IO Unit := do
   let line ← h.getLine
